@@ -403,8 +403,9 @@ func (z *zone) answer(name string, t uint16) dohmem.Answer {
 			evil = httpsRR("evil.example", svc{Prio: 1, Target: "evil.example", ECH: true})
 		}
 		// ... and records owned by names that merely START with the queried name (a longer name, a sibling with a suffixed label)
+		// or merely END with it (names below the queried one: a subdomain is another owner)
 		var ext []dnsref.RR
-		for _, owner := range []string{name + ".attacker.net", name + "-cdn.org"} {
+		for _, owner := range []string{name + ".attacker.net", name + "-cdn.org", "evil." + name, "a.b." + name} {
 			switch t {
 			case 1:
 				ext = append(ext, dnsref.RR{Name: owner, Type: 1, Class: 1, TTL: 60, Fields: []dnsref.Field{{Raw: ipX4}}})
@@ -576,7 +577,7 @@ func expectStr(e expectation) string {
 
 func Run(r *ev.Run) {
 	log.SetOutput(io.Discard) // the package logs alias loops through the standard logger
-	r.Rule("reference resolver model (RFC 9460 §2.3, §2.4.2, §3 + property text) + total replay: universes = HTTPS data {none, NXDOMAIN/SERVFAIL/REFUSED/FORMERR/NOTIMP, alias chains of length 1..6, 12 and 30 (the last name optionally starting with an underscore label) ending in {nothing, service set, alias '.', loop to origin/first/self, NXDOMAIN, SERVFAIL}, 17 service sets (1-2 records, priorities in both orders and equal, targets '.', t1, t2, the owner/origin name spelled out, port, ech), failing responses that nevertheless carry an answer section} x final-name addresses {A?,AAAA?} x address rcode {ok, NXDOMAIN, SERVFAIL, SERVFAIL/REFUSED on the AAAA lookup only} x in-answer CNAME x target addresses {none, A, A+AAAA (+second target A), SERVFAIL, first target SERVFAIL while the second has an address} x poisoned answers on/off (records of the asked type owned by an unrelated name, by names that merely start with the queried name, and an unrelated CNAME followed by data for its target, before, between and after the genuine records; the in-answer CNAME target is spelled in mixed case) x 12 name forms (host, host:port, URIs with http/https/other schemes, upper-case scheme, trailing dot); plus literal/localhost forms and hostile lengths (host 253..300 bytes, labels 63/64, schemes 1..300 bytes). Every query is served by an in-memory DoH responder and logged. distinct = distinct (universe, form)")
+	r.Rule("reference resolver model (RFC 9460 §2.3, §2.4.2, §3 + property text) + total replay: universes = HTTPS data {none, NXDOMAIN/SERVFAIL/REFUSED/FORMERR/NOTIMP, alias chains of length 1..6, 12 and 30 (the last name optionally starting with an underscore label) ending in {nothing, service set, alias '.', loop to origin/first/self, NXDOMAIN, SERVFAIL}, 17 service sets (1-2 records, priorities in both orders and equal, targets '.', t1, t2, the owner/origin name spelled out, port, ech), failing responses that nevertheless carry an answer section} x final-name addresses {A?,AAAA?} x address rcode {ok, NXDOMAIN, SERVFAIL, SERVFAIL/REFUSED on the AAAA lookup only} x in-answer CNAME x target addresses {none, A, A+AAAA (+second target A), SERVFAIL, first target SERVFAIL while the second has an address} x poisoned answers on/off (records of the asked type owned by an unrelated name, by names that merely start with the queried name or lie below it, and an unrelated CNAME followed by data for its target, before, between and after the genuine records; the in-answer CNAME target is spelled in mixed case) x 12 name forms (host, host:port, URIs with http/https/other schemes, upper-case scheme, trailing dot); plus literal/localhost forms and hostile lengths (host 253..300 bytes, labels 63/64, schemes 1..300 bytes). Every query is served by an in-memory DoH responder and logged. distinct = distinct (universe, form)")
 	r.Assume("reference model in checks/c14; chains of up to 3 aliases must be followed, longer ones may be followed or abandoned (fallback to the origin's addresses or an error); alias loops must end in the fallback or an error; RRsets mixing alias and service mode are excluded (RFC 9460 leaves them to the client)",
 		"the DoH responder chases CNAMEs itself (recursive-resolver behaviour): answers carry the CNAME followed by the target's records")
 	var svcSets [][]svc
